@@ -245,7 +245,7 @@ const monP384CM = "TestVerifP384CombinedMult"
 // triples built so that the two partial sums collide or cancel.
 func TestVerifP384CombinedMult(t *testing.T) {
 	p384Setup()
-	lib.Mandatory("p384.CombinedMult", "cm:Q=G,m=n", "cm:mG=nQ", "cm:mG=-nQ", "cm:unreduced", "cm:Q=O", "cm:m=0", "cm:n=0", "cm:independent", "cm:lifted-Q", "cm:n~N")
+	lib.Mandatory("p384.CombinedMult", "cm:Q=G,m=n", "cm:mG=nQ", "cm:mG=-nQ", "cm:unreduced", "cm:Q=O", "cm:m=0", "cm:n=0", "cm:independent", "cm:lifted-Q", "cm:n~N", "cm:mid-loop-cancellation")
 	c := p384Ref
 	cv := p384.P384()
 	std := elliptic.P384()
@@ -305,7 +305,7 @@ func TestVerifP384CombinedMult(t *testing.T) {
 		if q.K == nil {
 			cl = "lifted-Q"
 		}
-		mode := r.Intn(12)
+		mode := r.Intn(15)
 		if q.K == nil && mode < 6 {
 			mode = 6 + r.Intn(6)
 		}
@@ -341,6 +341,34 @@ func TestVerifP384CombinedMult(t *testing.T) {
 				mm = bi(0)
 			}
 			cl = "n~N"
+		case 12, 13, 14:
+			// cancellation in the MIDDLE of the double-scalar loop: Q = -cG,
+			// m = (c*h)*2^s + l1, n = h*2^s + l2: after the digits above bit
+			// s the accumulator is c*h*G - h*c*G = O (the point at infinity as
+			// an intermediate value), and the low parts l1, l2 still have to be
+			// added to it
+			cc := int64(1 + r.Intn(5))
+			q = mkQ(bi(-cc))
+			h := new(big.Int).SetBytes(r.Bytes(1 + r.Intn(6)))
+			h.Add(h, bi(1))
+			sh := uint(8 + r.Intn(300))
+			l1 := new(big.Int).SetBytes(r.Bytes(1 + r.Intn(int(sh/8))))
+			l2 := new(big.Int).SetBytes(r.Bytes(1 + r.Intn(int(sh/8))))
+			if sh >= 16 { // keep the low parts clear of the prefix (no carry into it)
+				l1.Rsh(l1, 8)
+				l2.Rsh(l2, 8)
+			} else {
+				l1, l2 = bi(int64(r.Intn(3))), bi(int64(r.Intn(3)))
+			}
+			switch r.Intn(4) {
+			case 0:
+				l2 = bi(0)
+			case 1:
+				l1 = bi(0)
+			}
+			mm = new(big.Int).Add(new(big.Int).Lsh(new(big.Int).Mul(h, bi(cc)), sh), l1)
+			nn = new(big.Int).Add(new(big.Int).Lsh(h, sh), l2)
+			cl = "mid-loop-cancellation"
 		}
 		gen[i] = triple{q, mm, nn, cl}
 	})
